@@ -1522,6 +1522,38 @@ func setpath(v, p, n any, a allocator) any {
 	return u
 }
 
+// Used in compiler#compileModify. The value at the path is handed to the
+// update query, which may retain it (`[.]`, `{a: .}`), so it must not be
+// modified in place afterwards: forget the allocated containers in it, and
+// copy an array slice because it is a view into an array which stays allocated.
+func funcGetpathWithAllocator(v any, args []any) any {
+	w := funcGetpath(v, args[0])
+	if vs, ok := w.([]any); ok {
+		if path := args[0].([]any); len(path) > 0 {
+			if _, ok := path[len(path)-1].(map[string]any); ok {
+				w = slices.Clone(vs)
+			}
+		}
+	}
+	args[1].(allocator).release(w)
+	return w
+}
+
+func (a allocator) release(v any) {
+	switch v := v.(type) {
+	case []any:
+		delete(a, reflect.ValueOf(v).Pointer())
+		for _, v := range v {
+			a.release(v)
+		}
+	case map[string]any:
+		delete(a, reflect.ValueOf(v).Pointer())
+		for _, v := range v {
+			a.release(v)
+		}
+	}
+}
+
 func funcDelpaths(v, p any) any {
 	return delpaths(v, p, allocator{})
 }
